@@ -33,6 +33,29 @@ def run(ctx, factor):
             files, forms = [], ["substring-repeated-in-one-name"]
             if g.chance(0.4):
                 files, mdoc = [{"macros": mdoc.pop("macros")}], mdoc
+        if it % 9 == 7:
+            # a parameterised macro call as the ARGUMENT of another parameterised macro call, the two definitions in either
+            # order and in the rule file or an extra file: each expansion must be stored back where the call stood
+            base, off = g.pick(["%rbp", "%rsp", "rbx"]), g.pick(["0x10", "8", "0x20"])
+            m1, m2 = g.r.sample(["movl", "andl", "orl", "cmpl"], 2)
+            slot = {"name": "@slot", "args": ["base"], "pattern": [{"$deref": {"main_reg": "base", "constant_offset": off}}]}
+            body = g.pick([{"$or": [{m1: ["0x0", "dst"]}, {m2: ["0x0", "dst"]}]}, {m1: ["0x0", "dst"]}, {m1: ["dst", "%eax"]}])
+            clear = {"name": "@clear", "args": ["dst"], "pattern": [body]}
+            call = g.pick([{"@clear": {"dst": {"@slot": {"base": base}}}}, {"@clear": None, "dst": {"@slot": None, "base": base}}])
+            inl_slot = {"$deref": {"main_reg": base, "constant_offset": off}}
+            inl = json.loads(json.dumps(body).replace('"dst"', json.dumps(inl_slot)))
+            doc = {"pattern": [inl, "ret"]}
+            order = g.pick([[clear, slot], [slot, clear]])
+            place = g.int(0, 3)
+            if place == 0:
+                mdoc, files = {"macros": order, "pattern": [call, "ret"]}, []
+            elif place == 1:
+                mdoc, files = {"macros": [order[1]], "pattern": [call, "ret"]}, [{"macros": [order[0]]}]
+            elif place == 2:
+                mdoc, files = {"pattern": [call, "ret"]}, [{"macros": [order[0]]}, {"macros": [order[1]]}]
+            else:
+                mdoc, files = {"pattern": [call, "ret"]}, [{"macros": order}]
+            forms = ["parameterised-call-as-argument-of-a-call"]
         if not forms:
             continue
         # a second use of one of the macros, same arguments (uses must not influence each other)
